@@ -76,7 +76,9 @@ class Scatterers(Scatterer):
         '''
         if scatterers is None:
             scatterers = []
-        self.scatterers = scatterers
+        # a list of its own: the caller's sequence is not kept (and may be a
+        # tuple, or an iterator that can be walked only once)
+        self.scatterers = list(scatterers)
 
     def add(self, scatterer):
         self.scatterers.append(scatterer)
